@@ -31,6 +31,20 @@ func init() {
 func runC15(c *Ctx) {
 	p := c.P
 	sharedDigestRule(c, p, "R4", "transports/scramblesuit")
+	// the UniformDH handshake is common/uniformdh: its structural rules (C13.R1: even exponent, X / p-X,
+	// fixed-width 192-byte FillBytes of the public value and of the shared secret, import check) are part
+	// of "the client completes the UniformDH handshake" too; imported as RU1
+	defer func() {
+		sub := NewCtx(c.P, c.Prop, c.Tier)
+		c13UniformDH(sub, c.P)
+		for _, o := range sub.Obls {
+			o.Key = strings.Replace(o.Key, c.Prop+".R", c.Prop+".RU", 1)
+			c.Obls = append(c.Obls, o)
+		}
+		for k := range sub.fnSeen {
+			c.fnSeen[k] = true
+		}
+	}()
 	spec, err := loadSpec("scramblesuit.json")
 	if err != nil {
 		c.Obl("R0", "spec", "spec table loads").Undecide("%v", err)
